@@ -281,7 +281,7 @@ theorem SInv.keep {Γ : Gam} {env : Env} {m m' : Mem} {F D o ra : Nat} (h : SInv
 
 /-- where control is and what holds after a statement list that started in memory `m0`: in every
 case the memory at and above the frame pointer, `fp` and `ap` are what they were (`Keep … F`) -/
-def Post (p : Prog) (B ra : Nat) (Γ : Gam) (env' : Env) (F D o pcEnd : Nat) (m0 : Mem) (res : Res) (st : St) : Prop :=
+def Post (p : Prog) (B ra : Nat) (lp : Nat × Nat) (Γ : Gam) (env' : Env) (F D o pcEnd : Nat) (m0 : Mem) (res : Res) (st : St) : Prop :=
   match res with
   | .norm => st.pc = pcEnd ∧ SInv p Γ env' st.mem F D o ra ∧ Keep p.w m0 st.mem F
   | .returned => st.pc = ra ∧ Keep p.w m0 st.mem F
@@ -289,10 +289,12 @@ def Post (p : Prog) (B ra : Nat) (Γ : Gam) (env' : Env) (F D o pcEnd : Nat) (m0
   | .div0 => st.pc = B + off_division_by_zero
   | .ovf => st.pc = B + off_stack_overflow
   | .defeat => False
+  | .brk => st.pc = lp.2 ∧ SInv p Γ env' st.mem F D o ra ∧ Keep p.w m0 st.mem F
+  | .cnt => st.pc = lp.1 ∧ SInv p Γ env' st.mem F D o ra ∧ Keep p.w m0 st.mem F
 
 /-- the same facts relative to an earlier memory -/
-theorem Post.rebase {B ra : Nat} {Γ : Gam} {env' : Env} {F D o e : Nat} {m m1 : Mem} {res : Res} {st : St}
-    (k : Keep p.w m m1 F) (h : Post p B ra Γ env' F D o e m1 res st) : Post p B ra Γ env' F D o e m res st := by
+theorem Post.rebase {B ra : Nat} {lp : Nat × Nat} {Γ : Gam} {env' : Env} {F D o e : Nat} {m m1 : Mem} {res : Res} {st : St}
+    (k : Keep p.w m m1 F) (h : Post p B ra lp Γ env' F D o e m1 res st) : Post p B ra lp Γ env' F D o e m res st := by
   cases res with
   | norm => exact ⟨h.1, h.2.1, k.trans' h.2.2⟩
   | returned => exact ⟨h.1, k.trans' h.2⟩
@@ -300,6 +302,8 @@ theorem Post.rebase {B ra : Nat} {Γ : Gam} {env' : Env} {F D o e : Nat} {m m1 :
   | div0 => exact h
   | ovf => exact h
   | defeat => exact h
+  | brk => exact ⟨h.1, h.2.1, k.trans' h.2.2⟩
+  | cnt => exact ⟨h.1, h.2.1, k.trans' h.2.2⟩
 
 theorem look_cons_same (Γ : Gam) (x : String) (a : Nat) : look ((x, a) :: Γ) x = a := by
   simp [look, List.lookup]
@@ -394,6 +398,8 @@ theorem pkS_ge (w : Nat) (s : S) : ∀ o, o ≤ pkS w o s := by
   induction s with
   | nil => intro o; simp [pkS]
   | ret => intro o; simp [pkS]
+  | brk => intro o; simp [pkS]
+  | cnt => intro o; simp [pkS]
   | decl x e k ih => intro o; have := ih (o + w); simp only [pkS]; omega
   | assign x e k ih => intro o; have := ih o; simp only [pkS]; omega
   | write e k ih => intro o; have := ih o; simp only [pkS]; omega
@@ -426,6 +432,8 @@ theorem plain_noTry (s : S) : plain s = true → noTry s = true := by
   induction s with
   | nil => intro; rfl
   | ret => intro; rfl
+  | brk => intro; rfl
+  | cnt => intro; rfl
   | decl x e k ih => simpa [plain, noTry] using ih
   | assign x e k ih => simpa [plain, noTry] using ih
   | write e k ih => simpa [plain, noTry] using ih
@@ -448,6 +456,8 @@ theorem plain_youLevel (s : S) : plain s = true → youLevel s = true := by
   induction s with
   | nil => intro; rfl
   | ret => intro; rfl
+  | brk => intro; rfl
+  | cnt => intro; rfl
   | decl x e k ih => simpa [plain, youLevel] using ih
   | assign x e k ih => simpa [plain, youLevel] using ih
   | write e k ih => simpa [plain, youLevel] using ih
@@ -498,6 +508,8 @@ theorem exec_no_defeat (M n : Nat) (fns : List FDecl) (w : Nat) : ∀ (fuel : Na
     cases s with
     | nil => simp only [exec, Option.some.injEq, Prod.mk.injEq] at hex; rw [← hex.2.2]; decide
     | ret => simp only [exec, Option.some.injEq, Prod.mk.injEq] at hex; rw [← hex.2.2]; decide
+    | brk => simp only [exec, Option.some.injEq, Prod.mk.injEq] at hex; rw [← hex.2.2]; decide
+    | cnt => simp only [exec, Option.some.injEq, Prod.mk.injEq] at hex; rw [← hex.2.2]; decide
     | decl x e k =>
       simp only [youLevel] at hy
       simp only [exec] at hex
@@ -616,9 +628,8 @@ theorem exec_no_defeat (M n : Nat) (fns : List FDecl) (w : Nat) : ∀ (fuel : Na
             obtain ⟨e1, t1, r1⟩ := rb
             simp only [hb, Option.bind_eq_bind, Option.bind_some] at hex
             have h1 := ih body _ _ _ _ _ _ hy.1.1 hb
-            by_cases hn : r1 = .norm
-            · subst hn
-              simp only [if_true] at hex
+            by_cases hn : r1 = .norm ∨ r1 = .cnt
+            · rw [if_pos hn] at hex
               cases hc : exec M n fns w f room o e1 cont with
               | none => simp [hc] at hex
               | some rc =>
@@ -636,8 +647,18 @@ theorem exec_no_defeat (M n : Nat) (fns : List FDecl) (w : Nat) : ∀ (fuel : Na
                     rw [← hex.2.2]; exact ih _ _ _ _ _ _ _ hy0 hl
                 · simp only [hn2, if_false, Option.pure_def, Option.some.injEq, Prod.mk.injEq] at hex
                   rw [← hex.2.2]; exact h2
-            · simp only [hn, if_false, Option.pure_def, Option.some.injEq, Prod.mk.injEq] at hex
-              rw [← hex.2.2]; exact h1
+            · rw [if_neg hn] at hex
+              by_cases hbk : r1 = .brk
+              · rw [if_pos hbk] at hex
+                cases hk : exec M n fns w f room o e1 k with
+                | none => simp [hk] at hex
+                | some rk =>
+                  obtain ⟨e3, t3, r3⟩ := rk
+                  simp only [hk, Option.bind_some, Option.pure_def, Option.some.injEq, Prod.mk.injEq] at hex
+                  rw [← hex.2.2]; exact ih k _ _ _ _ _ _ hy.2 hk
+              · rw [if_neg hbk] at hex
+                simp only [Option.pure_def, Option.some.injEq, Prod.mk.injEq] at hex
+                rw [← hex.2.2]; exact h1
     | defeat k => simp [youLevel] at hy
     | defeatIf c k => simp [youLevel] at hy
     | tryUndo body handler k =>
@@ -761,6 +782,8 @@ theorem exec_noFall (M n : Nat) (fns : List FDecl) (w : Nat) : ∀ (fuel : Nat) 
     cases s with
     | nil => simp [noFall] at hy
     | ret => simp only [exec, Option.some.injEq, Prod.mk.injEq] at hex; rw [← hex.2.2]; decide
+    | brk => simp only [exec, Option.some.injEq, Prod.mk.injEq] at hex; rw [← hex.2.2]; decide
+    | cnt => simp only [exec, Option.some.injEq, Prod.mk.injEq] at hex; rw [← hex.2.2]; decide
     | decl x e k =>
       simp only [noFall] at hy
       simp only [exec] at hex
@@ -882,9 +905,8 @@ theorem exec_noFall (M n : Nat) (fns : List FDecl) (w : Nat) : ∀ (fuel : Nat) 
           | some rb =>
             obtain ⟨e1, t1, r1⟩ := rb
             simp only [hb, Option.bind_eq_bind, Option.bind_some] at hex
-            by_cases hn : r1 = .norm
-            · subst hn
-              simp only [if_true] at hex
+            by_cases hn : r1 = .norm ∨ r1 = .cnt
+            · rw [if_pos hn] at hex
               cases hc : exec M n fns w f room o e1 cont with
               | none => simp [hc] at hex
               | some rc =>
@@ -901,8 +923,18 @@ theorem exec_noFall (M n : Nat) (fns : List FDecl) (w : Nat) : ∀ (fuel : Nat) 
                     rw [← hex.2.2]; exact ih _ _ _ _ _ _ _ hy0 hl
                 · simp only [hn2, if_false, Option.pure_def, Option.some.injEq, Prod.mk.injEq] at hex
                   rw [← hex.2.2]; exact hn2
-            · simp only [hn, if_false, Option.pure_def, Option.some.injEq, Prod.mk.injEq] at hex
-              rw [← hex.2.2]; exact hn
+            · rw [if_neg hn] at hex
+              by_cases hbk : r1 = .brk
+              · rw [if_pos hbk] at hex
+                cases hk : exec M n fns w f room o e1 k with
+                | none => simp [hk] at hex
+                | some rk =>
+                  obtain ⟨e3, t3, r3⟩ := rk
+                  simp only [hk, Option.bind_some, Option.pure_def, Option.some.injEq, Prod.mk.injEq] at hex
+                  rw [← hex.2.2]; exact ih k _ _ _ _ _ _ hy hk
+              · rw [if_neg hbk] at hex
+                simp only [Option.pure_def, Option.some.injEq, Prod.mk.injEq] at hex
+                rw [← hex.2.2]; exact fun h => hn (Or.inl h)
     | defeat k => simp only [exec, Option.some.injEq, Prod.mk.injEq] at hex; rw [← hex.2.2]; decide
     | defeatIf c k =>
       simp only [noFall] at hy
@@ -1079,6 +1111,8 @@ theorem exec_room_mono (M n : Nat) (fns : List FDecl) (w : Nat) : ∀ (fuel : Na
     | ret => simpa [exec] using hex
     | retE e => simpa [exec] using hex
     | defeat k => simpa [exec] using hex
+    | brk => simpa [exec] using hex
+    | cnt => simpa [exec] using hex
     | decl x e k =>
       simp only [exec] at hex ⊢
       cases hev : evalE M n env e with
@@ -1197,10 +1231,11 @@ theorem exec_room_mono (M n : Nat) (fns : List FDecl) (w : Nat) : ∀ (fuel : Na
           | some rb =>
             obtain ⟨e1, t1, r1⟩ := rb
             simp only [hb, Option.bind_eq_bind, Option.bind_some] at hex
-            by_cases hn : r1 = .norm
-            · subst hn
-              rw [ih _ _ _ _ _ _ _ _ hle hb (by decide)]
-              simp only [if_true, Option.bind_eq_bind, Option.bind_some] at hex ⊢
+            by_cases hn : r1 = .norm ∨ r1 = .cnt
+            · rw [ih _ _ _ _ _ _ _ _ hle hb (by rcases hn with h | h <;> rw [h] <;> decide)]
+              rw [if_pos hn] at hex
+              simp only [Option.bind_eq_bind, Option.bind_some]
+              rw [if_pos hn]
               cases hc : exec M n fns w f room o e1 cont with
               | none => simp [hc] at hex
               | some rc =>
@@ -1221,10 +1256,24 @@ theorem exec_room_mono (M n : Nat) (fns : List FDecl) (w : Nat) : ∀ (fuel : Na
                   obtain ⟨rfl, rfl, rfl⟩ := hex
                   rw [ih _ _ _ _ _ _ _ _ hle hc hno]
                   simp [hn2]
-            · simp only [hn, if_false, Option.pure_def, Option.some.injEq, Prod.mk.injEq] at hex
-              obtain ⟨rfl, rfl, rfl⟩ := hex
-              rw [ih _ _ _ _ _ _ _ _ hle hb hno]
-              simp [hn]
+            · rw [if_neg hn] at hex
+              by_cases hbk : r1 = .brk
+              · subst hbk
+                rw [ih _ _ _ _ _ _ _ _ hle hb (by decide)]
+                simp only [if_true, Option.bind_eq_bind, Option.bind_some] at hex ⊢
+                rw [if_neg (by decide)]
+                cases hk : exec M n fns w f room o e1 k with
+                | none => simp [hk] at hex
+                | some rk =>
+                  obtain ⟨e3, t3, r3⟩ := rk
+                  simp only [hk, Option.bind_some, Option.pure_def, Option.some.injEq, Prod.mk.injEq] at hex
+                  obtain ⟨rfl, rfl, rfl⟩ := hex
+                  rw [ih _ _ _ _ _ _ _ _ hle hk hno]; rfl
+              · rw [if_neg hbk] at hex
+                simp only [Option.pure_def, Option.some.injEq, Prod.mk.injEq] at hex
+                obtain ⟨rfl, rfl, rfl⟩ := hex
+                rw [ih _ _ _ _ _ _ _ _ hle hb hno]
+                simp [hn, hbk]
     | defeatIf c k =>
       simp only [exec] at hex ⊢
       cases hev : evalB M n env c with
@@ -1350,5 +1399,282 @@ theorem exec_room_mono (M n : Nat) (fns : List FDecl) (w : Nat) : ∀ (fuel : Na
               simp only [hk, Option.bind_eq_bind, Option.bind_some, Option.pure_def, Option.some.injEq, Prod.mk.injEq] at hex
               obtain ⟨rfl, rfl, rfl⟩ := hex
               rw [ih _ _ _ _ _ _ _ _ hle hk hno]; rfl
+
+/-- outside loops a list without stray `break`/`continue` never ends in one -/
+theorem exec_noEsc (M n : Nat) (fns : List FDecl) (w : Nat) : ∀ (fuel : Nat) (s : S) (room o : Nat) (env env' : Env) (tr : List Ev) (res : Res),
+    escFree false s = true → exec M n fns w fuel room o env s = some (env', tr, res) → res ≠ .brk ∧ res ≠ .cnt := by
+  intro fuel
+  induction fuel with
+  | zero => intro s room o env env' tr res _ h; simp [exec] at h
+  | succ f ih =>
+    intro s room o env env' tr res hy hex
+    cases s with
+    | nil => simp only [exec, Option.some.injEq, Prod.mk.injEq] at hex; rw [← hex.2.2]; decide
+    | ret => simp only [exec, Option.some.injEq, Prod.mk.injEq] at hex; rw [← hex.2.2]; decide
+    | brk => simp [escFree] at hy
+    | cnt => simp [escFree] at hy
+    | defeat k => simp only [exec, Option.some.injEq, Prod.mk.injEq] at hex; rw [← hex.2.2]; decide
+    | retE e =>
+      simp only [exec] at hex
+      cases hev : evalE M n env e with
+      | none => simp only [hev, Option.some.injEq, Prod.mk.injEq] at hex; rw [← hex.2.2]; decide
+      | some v => simp only [hev, Option.some.injEq, Prod.mk.injEq] at hex; rw [← hex.2.2]; simp
+    | decl x e k =>
+      simp only [escFree] at hy
+      simp only [exec] at hex
+      cases hev : evalE M n env e with
+      | none => simp only [hev, Option.some.injEq, Prod.mk.injEq] at hex; rw [← hex.2.2]; decide
+      | some v => simp only [hev] at hex; exact ih k _ _ _ _ _ _ hy hex
+    | assign x e k =>
+      simp only [escFree] at hy
+      simp only [exec] at hex
+      cases hev : evalE M n env e with
+      | none => simp only [hev, Option.some.injEq, Prod.mk.injEq] at hex; rw [← hex.2.2]; decide
+      | some v => simp only [hev] at hex; exact ih k _ _ _ _ _ _ hy hex
+    | write e k =>
+      simp only [escFree] at hy
+      simp only [exec] at hex
+      cases hev : evalE M n env e with
+      | none => simp only [hev, Option.some.injEq, Prod.mk.injEq] at hex; rw [← hex.2.2]; decide
+      | some v =>
+        simp only [hev] at hex
+        cases hk : exec M n fns w f room o env k with
+        | none => simp [hk] at hex
+        | some rk =>
+          obtain ⟨e1, t1, r1⟩ := rk
+          simp only [hk, Option.bind_eq_bind, Option.bind_some, Option.pure_def, Option.some.injEq, Prod.mk.injEq] at hex
+          rw [← hex.2.2]; exact ih k _ _ _ _ _ _ hy hk
+    | writeln e k =>
+      simp only [escFree] at hy
+      cases e with
+      | none =>
+        simp only [exec] at hex
+        cases hk : exec M n fns w f room o env k with
+        | none => simp [hk] at hex
+        | some rk =>
+          obtain ⟨e1, t1, r1⟩ := rk
+          simp only [hk, Option.bind_eq_bind, Option.bind_some, Option.pure_def, Option.some.injEq, Prod.mk.injEq] at hex
+          rw [← hex.2.2]; exact ih k _ _ _ _ _ _ hy hk
+      | some e =>
+        simp only [exec] at hex
+        cases hev : evalE M n env e with
+        | none => simp only [hev, Option.some.injEq, Prod.mk.injEq] at hex; rw [← hex.2.2]; decide
+        | some v =>
+          simp only [hev] at hex
+          cases hk : exec M n fns w f room o env k with
+          | none => simp [hk] at hex
+          | some rk =>
+            obtain ⟨e1, t1, r1⟩ := rk
+            simp only [hk, Option.bind_eq_bind, Option.bind_some, Option.pure_def, Option.some.injEq, Prod.mk.injEq] at hex
+            rw [← hex.2.2]; exact ih k _ _ _ _ _ _ hy hk
+    | putc c k =>
+      simp only [escFree] at hy
+      simp only [exec] at hex
+      cases hk : exec M n fns w f room o env k with
+      | none => simp [hk] at hex
+      | some rk =>
+        obtain ⟨e1, t1, r1⟩ := rk
+        simp only [hk, Option.bind_eq_bind, Option.bind_some, Option.pure_def, Option.some.injEq, Prod.mk.injEq] at hex
+        rw [← hex.2.2]; exact ih k _ _ _ _ _ _ hy hk
+    | block b k =>
+      simp only [escFree, Bool.and_eq_true] at hy
+      simp only [exec] at hex
+      cases hb : exec M n fns w f room o env b with
+      | none => simp [hb] at hex
+      | some rb =>
+        obtain ⟨e1, t1, r1⟩ := rb
+        simp only [hb, Option.bind_eq_bind, Option.bind_some] at hex
+        by_cases hn : r1 = .norm
+        · subst hn
+          simp only [if_true] at hex
+          cases hk : exec M n fns w f room o e1 k with
+          | none => simp [hk] at hex
+          | some rk =>
+            obtain ⟨e2, t2, r2⟩ := rk
+            simp only [hk, Option.bind_some, Option.pure_def, Option.some.injEq, Prod.mk.injEq] at hex
+            rw [← hex.2.2]; exact ih k _ _ _ _ _ _ hy.2 hk
+        · simp only [hn, if_false, Option.pure_def, Option.some.injEq, Prod.mk.injEq] at hex
+          rw [← hex.2.2]; exact ih b _ _ _ _ _ _ hy.1 hb
+    | ifb c t e k =>
+      simp only [escFree, Bool.and_eq_true] at hy
+      simp only [exec] at hex
+      cases hev : evalB M n env c with
+      | none => simp only [hev, Option.some.injEq, Prod.mk.injEq] at hex; rw [← hex.2.2]; decide
+      | some cv =>
+        simp only [hev] at hex
+        cases hb : exec M n fns w f room o env (if cv = true then t else e) with
+        | none => simp [hb] at hex
+        | some rb =>
+          obtain ⟨e1, t1, r1⟩ := rb
+          simp only [hb, Option.bind_eq_bind, Option.bind_some] at hex
+          have h1 := ih _ _ _ _ _ _ _ (by cases cv <;> simp [hy.1.1, hy.1.2]) hb
+          by_cases hn : r1 = .norm
+          · subst hn
+            simp only [if_true] at hex
+            cases hk : exec M n fns w f room o e1 k with
+            | none => simp [hk] at hex
+            | some rk =>
+              obtain ⟨e2, t2, r2⟩ := rk
+              simp only [hk, Option.bind_some, Option.pure_def, Option.some.injEq, Prod.mk.injEq] at hex
+              rw [← hex.2.2]; exact ih k _ _ _ _ _ _ hy.2 hk
+          · simp only [hn, if_false, Option.pure_def, Option.some.injEq, Prod.mk.injEq] at hex
+            rw [← hex.2.2]; exact h1
+    | loop c body cont k =>
+      have hy0 := hy
+      simp only [escFree, Bool.and_eq_true] at hy
+      simp only [exec] at hex
+      cases hev : evalB M n env c with
+      | none => simp only [hev, Option.some.injEq, Prod.mk.injEq] at hex; rw [← hex.2.2]; decide
+      | some cv =>
+        cases cv with
+        | false => simp only [hev] at hex; exact ih k _ _ _ _ _ _ hy.2 hex
+        | true =>
+          simp only [hev] at hex
+          cases hb : exec M n fns w f room o env body with
+          | none => simp [hb] at hex
+          | some rb =>
+            obtain ⟨e1, t1, r1⟩ := rb
+            simp only [hb, Option.bind_eq_bind, Option.bind_some] at hex
+            by_cases hn : r1 = .norm ∨ r1 = .cnt
+            · rw [if_pos hn] at hex
+              cases hc : exec M n fns w f room o e1 cont with
+              | none => simp [hc] at hex
+              | some rc =>
+                obtain ⟨e2, t2, r2⟩ := rc
+                simp only [hc, Option.bind_some] at hex
+                by_cases hn2 : r2 = .norm
+                · subst hn2
+                  simp only [if_true] at hex
+                  cases hl : exec M n fns w f room o e2 (.loop c body cont k) with
+                  | none => simp [hl] at hex
+                  | some rl =>
+                    obtain ⟨e3, t3, r3⟩ := rl
+                    simp only [hl, Option.bind_some, Option.pure_def, Option.some.injEq, Prod.mk.injEq] at hex
+                    rw [← hex.2.2]; exact ih _ _ _ _ _ _ _ hy0 hl
+                · simp only [hn2, if_false, Option.pure_def, Option.some.injEq, Prod.mk.injEq] at hex
+                  rw [← hex.2.2]; exact ih cont _ _ _ _ _ _ hy.1.2 hc
+            · rw [if_neg hn] at hex
+              by_cases hbk : r1 = .brk
+              · rw [if_pos hbk] at hex
+                cases hk : exec M n fns w f room o e1 k with
+                | none => simp [hk] at hex
+                | some rk =>
+                  obtain ⟨e3, t3, r3⟩ := rk
+                  simp only [hk, Option.bind_some, Option.pure_def, Option.some.injEq, Prod.mk.injEq] at hex
+                  rw [← hex.2.2]; exact ih k _ _ _ _ _ _ hy.2 hk
+              · rw [if_neg hbk] at hex
+                simp only [Option.pure_def, Option.some.injEq, Prod.mk.injEq] at hex
+                rw [← hex.2.2]; exact ⟨hbk, fun h => hn (Or.inr h)⟩
+    | defeatIf c k =>
+      simp only [escFree] at hy
+      simp only [exec] at hex
+      cases hev : evalB M n env c with
+      | none => simp only [hev, Option.some.injEq, Prod.mk.injEq] at hex; rw [← hex.2.2]; decide
+      | some cv =>
+        cases cv with
+        | true => simp only [hev, Option.some.injEq, Prod.mk.injEq] at hex; rw [← hex.2.2]; decide
+        | false => simp only [hev] at hex; exact ih k _ _ _ _ _ _ hy hex
+    | tryUndo body handler k =>
+      simp only [escFree, Bool.and_eq_true] at hy
+      simp only [exec] at hex
+      cases hb : exec M n fns w f room o env body with
+      | none => simp [hb] at hex
+      | some rb =>
+        obtain ⟨e1, t1, r1⟩ := rb
+        simp only [hb, Option.bind_eq_bind, Option.bind_some] at hex
+        by_cases hd : r1 = .defeat
+        · subst hd
+          simp only [if_true] at hex
+          cases hh : exec M n fns w f room o env handler with
+          | none => simp [hh] at hex
+          | some rh =>
+            obtain ⟨e2, t2, r2⟩ := rh
+            simp only [hh, Option.bind_some] at hex
+            by_cases hn2 : r2 = .norm
+            · subst hn2
+              simp only [if_true] at hex
+              cases hk : exec M n fns w f room o e2 k with
+              | none => simp [hk] at hex
+              | some rk =>
+                obtain ⟨e3, t3, r3⟩ := rk
+                simp only [hk, Option.bind_some, Option.pure_def, Option.some.injEq, Prod.mk.injEq] at hex
+                rw [← hex.2.2]; exact ih k _ _ _ _ _ _ hy.2 hk
+            · simp only [hn2, if_false, Option.pure_def, Option.some.injEq, Prod.mk.injEq] at hex
+              rw [← hex.2.2]; exact ih handler _ _ _ _ _ _ hy.1.2 hh
+        · simp only [hd, if_false] at hex
+          by_cases hn : r1 = .norm
+          · subst hn
+            simp only [if_true] at hex
+            cases hk : exec M n fns w f room o e1 k with
+            | none => simp [hk] at hex
+            | some rk =>
+              obtain ⟨e3, t3, r3⟩ := rk
+              simp only [hk, Option.bind_some, Option.pure_def, Option.some.injEq, Prod.mk.injEq] at hex
+              rw [← hex.2.2]; exact ih k _ _ _ _ _ _ hy.2 hk
+          · simp only [hn, if_false, Option.pure_def, Option.some.injEq, Prod.mk.injEq] at hex
+            rw [← hex.2.2]; exact ih body _ _ _ _ _ _ hy.1.1 hb
+    | callS g args k =>
+      simp only [escFree] at hy
+      simp only [exec] at hex
+      cases hc : callWith M n fns w (exec M n fns w f) room o env g args with
+      | none => simp [hc] at hex
+      | some rc =>
+        obtain ⟨trc, flag, rv⟩ := rc
+        cases flag with
+        | some rf =>
+          simp only [hc, Option.some.injEq, Prod.mk.injEq] at hex; rw [← hex.2.2]
+          rcases callWith_fault hc with h | h <;> rw [h] <;> decide
+        | none =>
+          simp only [hc] at hex
+          cases hk : exec M n fns w f room o env k with
+          | none => simp [hk] at hex
+          | some rk =>
+            obtain ⟨e1, t1, r1⟩ := rk
+            simp only [hk, Option.bind_eq_bind, Option.bind_some, Option.pure_def, Option.some.injEq, Prod.mk.injEq] at hex
+            rw [← hex.2.2]; exact ih k _ _ _ _ _ _ hy hk
+    | declCall x g args k =>
+      simp only [escFree] at hy
+      simp only [exec] at hex
+      cases hc : callWith M n fns w (exec M n fns w f) room o env g args with
+      | none => simp [hc] at hex
+      | some rc =>
+        obtain ⟨trc, flag, rv⟩ := rc
+        cases flag with
+        | some rf =>
+          simp only [hc, Option.some.injEq, Prod.mk.injEq] at hex; rw [← hex.2.2]
+          rcases callWith_fault hc with h | h <;> rw [h] <;> decide
+        | none =>
+          cases rv with
+          | none => simp [hc] at hex
+          | some v =>
+            simp only [hc] at hex
+            cases hk : exec M n fns w f room (o + w) (upd env x v) k with
+            | none => simp [hk] at hex
+            | some rk =>
+              obtain ⟨e1, t1, r1⟩ := rk
+              simp only [hk, Option.bind_eq_bind, Option.bind_some, Option.pure_def, Option.some.injEq, Prod.mk.injEq] at hex
+              rw [← hex.2.2]; exact ih k _ _ _ _ _ _ hy hk
+    | assignCall x g args k =>
+      simp only [escFree] at hy
+      simp only [exec] at hex
+      cases hc : callWith M n fns w (exec M n fns w f) room o env g args with
+      | none => simp [hc] at hex
+      | some rc =>
+        obtain ⟨trc, flag, rv⟩ := rc
+        cases flag with
+        | some rf =>
+          simp only [hc, Option.some.injEq, Prod.mk.injEq] at hex; rw [← hex.2.2]
+          rcases callWith_fault hc with h | h <;> rw [h] <;> decide
+        | none =>
+          cases rv with
+          | none => simp [hc] at hex
+          | some v =>
+            simp only [hc] at hex
+            cases hk : exec M n fns w f room o (upd env x v) k with
+            | none => simp [hk] at hex
+            | some rk =>
+              obtain ⟨e1, t1, r1⟩ := rk
+              simp only [hk, Option.bind_eq_bind, Option.bind_some, Option.pure_def, Option.some.injEq, Prod.mk.injEq] at hex
+              rw [← hex.2.2]; exact ih k _ _ _ _ _ _ hy hk
 
 end HidVerif.Core
